@@ -28,6 +28,7 @@ def setup_fn(kinds):
             elif kind == 'bytes':
                 args[name] = eng.fresh_bytes(st, name)
         return None, args
+    setup.kinds = dict(kinds)
     return setup
 
 
